@@ -134,10 +134,10 @@ func (cr *ConRun) runLogWrap() {
 	}
 	switch cr.Res.Outcome {
 	case "deadlock":
-		cr.viol("C12", "no-progress:deadlock", strings.Join(firstN(cr.Res.Blocked, 12), "; "))
+		cr.viol(txnWorkloadProp("C12"), "no-progress:deadlock", strings.Join(firstN(cr.Res.Blocked, 12), "; "))
 		return
 	case "panic":
-		cr.Viol = append(cr.Viol, Violation{Property: "C04", Class: "panic-under-concurrency", Detail: fmt.Sprintf("task %s: %s [%s]", cr.Res.PanicTask, cr.Res.PanicVal, repoFrames(cr.Res.PanicStack, 6)), Site: panicSite(cr.Res.PanicStack)})
+		cr.Viol = append(cr.Viol, Violation{Property: txnWorkloadProp("C04"), Class: "panic-under-concurrency", Detail: fmt.Sprintf("task %s: %s [%s]", cr.Res.PanicTask, cr.Res.PanicVal, repoFrames(cr.Res.PanicStack, 6)), Site: panicSite(cr.Res.PanicStack)})
 		return
 	case "ok":
 	default:
